@@ -2,5 +2,4 @@ SPECIFICATION Spec
 CONSTANT K = 3
 CONSTRAINT Emit
 INVARIANT TypeOK
-INVARIANT ExpectedSound
 CHECK_DEADLOCK FALSE
